@@ -24,6 +24,13 @@ CHECKS = {
             "heads must raise LocalProtocolError with nothing written.",
             "Own decoders are the reference; header-name case on HTTP/1.1 and connection-specific headers are outside the oracle.",
             "3 C03"),
+    "C16": ("exploration",
+            "exhaustive configuration matrix over the op trace of a simulated backend (timeout argument of every network op) + virtual-clock pool-timeout schedules",
+            "Every combination of connect/read/write/pool in {absent, None, 0, value} x 14 connection kinds x 3 request shapes, two requests "
+            "with different dictionaries per cell, sync and async: the timeout argument of every connect/start_tls/read/write op is compared "
+            "with the issuing request's configuration.",
+            "SimNet records the arguments of every backend call; real sockets are not involved.",
+            "3 C16"),
     "C17": ("exploration",
             "bounded-exhaustive enumeration (cut subsets x max_bytes sequences) plus Hypothesis sampling; oracle = exact byte stream the peer sent after the head",
             "101 / CONNECT-2xx hand-over: for d<=6 every subset of cut positions around the head end and every max_bytes sequence over "
